@@ -13,8 +13,7 @@ for S in $SEEDS; do
   grep -q "backend/w32" seeded/$S/patch.diff && CFG=base,w32
   git -C /repo apply /verif/seeded/$S/patch.diff || exit 2
   echo "{" > /tmp/matrix-$S.json
-  for i in $(seq -w 1 20); do
-    K=C$i
+  for K in ${CHECKS:-$(seq -f "C%02g" 1 20)}; do
     ARGS="--configs $CFG"
     [ $K = C18 ] && [ $CFG = base ] && ARGS="--configs base,m51 --count 6000"
     timeout 3600 bin/check $K quick $ARGS > /tmp/matrix-$S-$K.log 2>&1; RC=$?
@@ -26,6 +25,6 @@ for S in $SEEDS; do
   done
   echo "  \"_configs\": \"$CFG\"" >> /tmp/matrix-$S.json; echo "}" >> /tmp/matrix-$S.json
   git -C /repo checkout -- src Cargo.toml
-  cp /tmp/matrix-$S.json seeded/matrix/$S.json
+  if [ -z "${CHECKS:-}" ]; then cp /tmp/matrix-$S.json seeded/matrix/$S.json; else cat /tmp/matrix-$S.json; fi
   echo "$S done: $(grep -c '"exit": 1' seeded/matrix/$S.json) checks fire"
 done
